@@ -62,6 +62,8 @@ Init0(props) ==
     expLog  |-> << >>,       \* expected probe records
     dhq     |-> << >>,       \* queues of the items whose drop handlers are running
     runNo   |-> 0,           \* number of run() calls so far
+    rstack  |-> << >>,       \* saved state of outer run() calls (run() re-entered from an idle item)
+    applied |-> TRUE,        \* has this run's instant taken effect yet? (it does after the idle item)
     panicked|-> FALSE
   ]
 
@@ -214,6 +216,7 @@ ImplicitDropTerm(st, aid) ==
                        "C04", "Dropped termination overtook calls made earlier (still held from Prep)")]
   ELSE [st |-> Terminate(st, aid, "dropped"),
         bad |-> {<<"C04", "actor terminated as Dropped although no last-owner drop is pending">>,
+                 <<"C16", "actor state released although an owning reference still exists">>,
                  <<"C03", "actor terminated as Dropped although no such termination request was issued">>}]
 
 LevelAllowed(st, lvl) == st.logOn /\ lvl \in st.filter
@@ -236,6 +239,16 @@ Tag(st) == IF st.lastq = "lazy" THEN st.phase ELSE 0
 
 AppendMain(st, en) ==
   IF st.alive = "dead" THEN st ELSE [st EXCEPT !.mainQ = Append(@, en)]
+
+\* The instant passed to run() takes effect after the idle item (if one runs): the main queue is swapped
+\* out, time advances, expired timer callbacks are appended behind what was queued (the mark)
+ApplyPend(st) ==
+  IF st.applied THEN st
+  ELSE LET adv == Lt(st.now, st.runT) IN
+       [st EXCEPT !.applied = TRUE, !.prev = st.now, !.now = TMax(st.now, st.runT), !.runAdv = adv,
+                  !.preRun = {st.mainQ[i].id : i \in {j \in 1..Len(st.mainQ) : st.mainQ[j].k \in {"item", "call"}}},
+                  !.mainQ = IF adv THEN Append(SelectSeq(@, LAMBDA en : en.k # "mark"), Entry("mark", 0, 0, FALSE, 0))
+                            ELSE SelectSeq(@, LAMBDA en : en.k # "mark")]
 
 \* ---- submissions
 ApplySub(st, e) ==
@@ -263,7 +276,7 @@ ApplySub(st, e) ==
 \* ---- execution of an item
 NowBad(st, e, q) ==
   IF q = "idle" \/ (st.depth > 0 /\ st.lastq = "idle")
-  THEN B(e.now # st.now /\ e.now # st.prev, "C15", "idle item saw a time that is neither previous nor current now")
+  THEN B(e.now # st.now /\ e.now # st.prev /\ e.now # TMax(st.now, st.runT), "C15", "idle item saw a time that is neither previous nor current now")
   ELSE B(e.now # st.now, "C15", "item observed now() different from the greatest instant passed in")
 
 TimerExec(st, e, it) ==
@@ -304,10 +317,11 @@ TimerExec(st, e, it) ==
                         !.fired = IF fixedShort THEN Append(@, tid) ELSE @]
   IN R(s1, bad)
 
-ApplyX(st, e) ==
+ApplyX(st00, e) ==
   LET id == e.item IN
-  IF ~Has(st.items, id) THEN R(st, {<<"C01", "unknown item executed">>}) ELSE
-  LET it == st.items[id]
+  IF ~Has(st00.items, id) THEN R(st00, {<<"C01", "unknown item executed">>}) ELSE
+  LET st == IF st00.inRun /\ st00.depth = 0 /\ st00.items[id].q # "idle" THEN ApplyPend(st00) ELSE st00
+      it == st.items[id]
       top == st.depth = 0
       twice == B(it.s # "p", IF it.q = "timer" THEN "C08" ELSE "C01", "closure executed twice or after being dropped")
       dead == B(st.alive # "live", "C01", "closure executed while/after the Stakker is dropped")
@@ -374,7 +388,8 @@ ApplyXE(st, e) ==
   LET id == e.item IN
   IF ~Has(st.items, id) THEN R(st, {}) ELSE
   LET it == st.items[id]
-      s1 == [st EXCEPT !.items[id].s = "r", !.depth = IF @ > 0 THEN @ - 1 ELSE 0]
+      s1a == [st EXCEPT !.items[id].s = "r", !.depth = IF @ > 0 THEN @ - 1 ELSE 0]
+      s1 == IF s1a.inRun /\ s1a.depth = 0 /\ it.q = "idle" THEN ApplyPend(s1a) ELSE s1a
   IN IF it.aid = 0 \/ ~Has(st.actors, it.aid) THEN R(s1, {}) ELSE
      LET a == st.actors[it.aid]
          s2 == [s1 EXCEPT !.actors[it.aid].running = IF @ > 0 THEN @ - 1 ELSE 0]
@@ -449,34 +464,46 @@ ApplyDrop(st, e) ==
   ELSE ApplyDrop1(st, e)
 
 \* ---- run
-ApplyRun(st, e) ==
+ApplyRun(st0, e) ==
   LET t == e.t
-      s1 == [st EXCEPT !.inRun = TRUE, !.prev = st.now, !.now = TMax(st.now, t), !.runT = t,
-                       !.runIdle = e.idle, !.runAdv = Lt(st.now, t), !.nexec = 0,
-                       !.lastq = "none", !.fired = << >>, !.runNo = @ + 1,
-                       !.preRun = {st.mainQ[i].id : i \in {j \in 1..Len(st.mainQ) : st.mainQ[j].k \in {"item", "call"}}},
-                       \* expired timer callbacks are appended to the swapped-out main queue here
-                       !.mainQ = IF Lt(st.now, t) THEN Append(SelectSeq(@, LAMBDA en : en.k # "mark"), Entry("mark", 0, 0, FALSE, 0))
-                                 ELSE SelectSeq(@, LAMBDA en : en.k # "mark")]
-  IN R(s1, B(st.inRun, "C06", "harness: nested run"))
+      \* run() may legitimately be re-entered from the idle item, which executes before the queues are swapped out
+      nested == st0.inRun
+      frame == [runT |-> st0.runT, runIdle |-> st0.runIdle, runAdv |-> st0.runAdv, nexec |-> st0.nexec, depth |-> st0.depth,
+                lastq |-> st0.lastq, fired |-> st0.fired, preRun |-> st0.preRun, prev |-> st0.prev, runNo |-> st0.runNo,
+                applied |-> st0.applied]
+      st == IF nested THEN [st0 EXCEPT !.rstack = Append(@, frame), !.depth = 0] ELSE st0
+      s0 == [st EXCEPT !.inRun = TRUE, !.runT = t, !.runIdle = e.idle, !.runAdv = FALSE, !.nexec = 0,
+                       !.lastq = "none", !.fired = << >>, !.runNo = @ + 1, !.applied = FALSE, !.preRun = {},
+                       !.mainQ = SelectSeq(@, LAMBDA en : en.k # "mark")]
+      \* without an idle item to run first the instant takes effect at once
+      s1 == IF e.idle /\ st.idleQ # << >> THEN s0 ELSE ApplyPend(s0)
+  IN R(s1, B(nested /\ ~(st0.depth > 0 /\ st0.lastq = "idle"), "C06", "harness: run() re-entered from something other than the idle item"))
 
 LeftoverBad(st) ==
   UNION { LET en == st.mainQ[i] IN
             CASE en.k \in {"item"} -> {<<"C01", "main-queue closure not executed by the end of run()">>}
               [] en.k = "call" -> {<<"C02", "actor call neither executed nor discarded by the end of run()">>,
                                    <<"C01", "main-queue closure not executed by the end of run()">>}
-              [] en.k = "term" -> {<<"C04", "actor not terminated (Dropped) by the end of the run after its last owner was dropped">>}
+              [] en.k = "term" -> {<<"C04", "actor not terminated (Dropped) by the end of the run after its last owner was dropped">>,
+                                   <<"C16", "actor state not released after its last owner was dropped">>}
               [] en.k = "retcall" -> {<<"C05", "ret_to target method not called by the end of run()">>}
               [] en.k = "fwdcall" -> {<<"C02", "Fwd call not delivered by the end of run()">>}
               [] OTHER -> {}
           : i \in 1..Len(st.mainQ) }
 
-ApplyRunEnd(st, e) ==
-  LET s0 == Settle(st)
+ApplyRunEnd(st00, e) ==
+  LET st == ApplyPend(st00)
+      s0 == Settle(st)
       late == {t \in Unfired(s0) : s0.timers[t].s = "q" \/ Le(AddNs(Deadline(s0.timers[t]), TickNs), s0.runT)}
       fl == Flushing(s0)
-      s1 == [s0 EXCEPT !.inRun = FALSE, !.depth = 0,
-                       !.drainB = IF s0.draining THEN @ - 1 ELSE @]
+      s1a == [s0 EXCEPT !.inRun = FALSE, !.depth = 0,
+                        !.drainB = IF s0.draining THEN @ - 1 ELSE @]
+      \* returning into the idle item of an outer run()
+      s1 == IF s0.rstack = << >> THEN s1a
+            ELSE LET f == s0.rstack[Len(s0.rstack)] IN
+                 [s1a EXCEPT !.inRun = TRUE, !.rstack = SubSeq(@, 1, Len(@) - 1), !.runT = f.runT, !.runIdle = f.runIdle,
+                             !.runAdv = f.runAdv, !.nexec = f.nexec, !.depth = f.depth, !.lastq = f.lastq,
+                             !.fired = f.fired, !.preRun = f.preRun, !.applied = f.applied]
   IN R(s1, LeftoverBad(s0)
            \cup B(s0.lazyQ # << >>, "C06", "lazy work remains when run() returns")
            \cup B(e.ret # (s0.idleQ # << >>), "C06", "run() return value disagrees with idle backlog")
